@@ -46,6 +46,8 @@ def norm(x):
 
 CLS_MOD = 'zv_c14_cls'        # always importable
 GONE_MOD = 'zv_c14_gone'      # removed from sys.modules wherever records are read ("missing class")
+PY2_MOD = 'Queue'             # an application module named like a Python 2 stdlib module; always importable
+PY2_RENAMED = 'queue'         # what ZODB.broken.find_global turns that name into
 
 
 # ---------------------------------------------------------------------------
@@ -76,19 +78,43 @@ def _make_modules():
         Node.__module__, Node.__name__, Node.__qualname__ = modname, clsname, clsname
         return Node
 
-    for modname, names in ((CLS_MOD, ('GNode', 'GNodeNew')), (GONE_MOD, ('GoneNode', 'GoneNodeNew'))):
+    def values(modname):
+        """non-persistent classes whose instances sit inside a state (and are missing where it is read)"""
+        class GoneList(list):
+            pass
+
+        class GoneDict(dict):
+            pass
+
+        class GoneValue:
+            """a value class pickled as GoneValue(ref): __reduce__ -> (class, args), no state"""
+
+            def __init__(self, ref=None):
+                self.ref = ref
+
+            def __reduce__(self):
+                return (type(self), (getattr(self, 'ref', None),))
+        for c in (GoneList, GoneDict, GoneValue):
+            c.__module__, c.__qualname__ = modname, c.__name__
+        return GoneList, GoneDict, GoneValue
+
+    for modname, names in ((CLS_MOD, ('GNode', 'GNodeNew')), (GONE_MOD, ('GoneNode', 'GoneNodeNew')),
+                           (PY2_MOD, ('GNode', 'GNodeNew'))):
         if modname in sys.modules:
             continue
         m = types.ModuleType(modname)
         setattr(m, names[0], plain(modname, names[0]))
         setattr(m, names[1], newargs(modname, names[1]))
+        if modname == GONE_MOD:
+            for c in values(modname):
+                setattr(m, c.__name__, c)
         sys.modules[modname] = m
     return sys.modules[CLS_MOD], sys.modules[GONE_MOD]
 
 
 _CLS, _GONE = _make_modules()
 KIND_CLASS = {'plain': (CLS_MOD, 'GNode'), 'newargs': (CLS_MOD, 'GNodeNew'),
-              'gone': (GONE_MOD, 'GoneNode'), 'gonenew': (GONE_MOD, 'GoneNodeNew')}
+              'gone': (GONE_MOD, 'GoneNode'), 'gonenew': (GONE_MOD, 'GoneNodeNew'), 'py2mod': (PY2_MOD, 'GNode')}
 
 
 def has_newargs(kind):
@@ -109,7 +135,7 @@ def node_name(n):
 
 def make_node(kind, name):
     mod, cls = KIND_CLASS[kind]
-    klass = getattr({CLS_MOD: _CLS, GONE_MOD: _GONE}[mod], cls)
+    klass = getattr(sys.modules[mod], cls)
     ob = klass(name) if has_newargs(kind) else klass()
     ob.name = name
     return ob
@@ -192,13 +218,62 @@ def wrap(holder, ref):
         return {'k': ref}
     if holder == 'deep':
         return {'a': [('t', [ref])]}
+    if holder == 'glist':
+        return _GONE.GoneList([ref])
+    if holder == 'gdict':
+        return _GONE.GoneDict({'k': ref})
+    if holder == 'rvalue':
+        return _GONE.GoneValue(ref)
     raise ValueError(holder)
 
 
+def _value_form(v):
+    """An embedded instance of one of the value classes of GONE_MOD, in any of its appearances ->
+    (holder, payload) or None.  Appearances: the real class (connection A), a stub (raw record), a placeholder
+    of ZODB.broken (a connection where the class is missing)."""
+    t = type(v)
+    mod, name = getattr(t, '__module__', None), getattr(t, '__name__', None)
+    if isinstance(v, _Stub):
+        if (mod, name) == ('ZODB.broken', 'rebuild') and tuple(v.args[:2]) == (GONE_MOD, 'GoneValue'):
+            return 'rlost', list(v.args[2:])             # written back as GoneValue.__new__(GoneValue, ref)
+        if mod != GONE_MOD:
+            return None
+        if name == 'GoneValue':
+            return 'rvalue', list(v.args)
+        if name == 'GoneList':
+            return 'glist', v.items
+        if name == 'GoneDict':
+            return 'gdict', v.items
+        return None
+    if mod != GONE_MOD:
+        return None
+    if hasattr(t, '__Broken_state__'):                      # placeholder: Broken.__new__ / __init__ recorded the arguments
+        if name == 'GoneValue':
+            return ('rvalue' if v.__Broken_initargs__ is not None else 'rlost'), list(v.__Broken_newargs__)
+        return None
+    if name == 'GoneValue':
+        return ('rvalue', [v.ref]) if 'ref' in v.__dict__ else ('rlost', [])
+    if name == 'GoneList':
+        return 'glist', list(v)
+    if name == 'GoneDict':
+        return 'gdict', dict(v)
+    return None
+
+
 def unwrap(v, isref):
-    """-> (holder, ref) or None"""
+    """-> (holder, ref) or None; ('rlost', None): the slot holds a value object that lost its reference"""
     if isref(v):
         return 'direct', v
+    vf = _value_form(v)
+    if vf is not None:
+        holder, payload = vf
+        if holder == 'gdict':
+            payload = [payload['k']] if isinstance(payload, dict) and set(payload) == {'k'} else None
+        if holder == 'rlost' and payload == []:
+            return 'rlost', None
+        if isinstance(payload, list) and len(payload) == 1 and isref(payload[0]):
+            return holder, payload[0]
+        return None
     if isinstance(v, list) and len(v) == 1 and isref(v[0]):
         return 'list', v[0]
     if isinstance(v, dict) and set(v) == {'k'} and isref(v['k']):
@@ -225,7 +300,7 @@ def decode_state(state, isref, resolve):
     if not isinstance(state, dict):
         return None, None, edges, ['state is %s, not a dict' % type(state).__name__]
     for k, v in state.items():
-        if k in ('name', 'tag'):
+        if k in ('name', 'tag', 'touch'):
             continue
         if not (isinstance(k, str) and k.startswith('e_')):
             problems.append('unexpected key %r' % (k,))
@@ -234,7 +309,8 @@ def decode_state(state, isref, resolve):
         if hv is None:
             problems.append('slot %s holds %s' % (k, _short(v)))
             continue
-        edges.add(resolve(hv[0], hv[1]))
+        if hv[1] is not None:
+            edges.add(resolve(hv[0], hv[1]))
     return state.get('name'), state.get('tag'), edges, problems
 
 
@@ -251,8 +327,12 @@ class _Stub:
     created = []
 
     def __new__(cls, *args):
-        _Stub.created.append('%s.%s' % (cls.__module__, cls.__name__))
-        return object.__new__(cls)
+        if (cls.__module__, cls.__name__) not in VALUE_CLASSES:
+            _Stub.created.append('%s.%s' % (cls.__module__, cls.__name__))
+        ob = object.__new__(cls)
+        ob.args = args
+        ob.items = {} if cls.__name__ == 'GoneDict' else []
+        return ob
 
     def __init__(self, *args):
         pass
@@ -260,7 +340,19 @@ class _Stub:
     def __setstate__(self, state):
         self.__dict__['stub_state'] = state
 
+    def append(self, x):
+        self.items.append(x)
 
+    def extend(self, xs):
+        self.items.extend(xs)
+
+    def __setitem__(self, k, v):
+        self.items[k] = v
+
+
+# the embedded value objects the harness itself puts into states (holders glist, gdict, rvalue and what a
+# placeholder writes back for them); instances of anything else inside a state are embedded objects
+VALUE_CLASSES = {(GONE_MOD, 'GoneList'), (GONE_MOD, 'GoneDict'), (GONE_MOD, 'GoneValue'), ('ZODB.broken', 'rebuild')}
 _stub_cache = {}
 
 
@@ -381,7 +473,9 @@ class GraphReplayer:
         self.formats = {}     # reference formats met in raw records (informational)
         self.soft = {}        # (what, item) -> description: divergences that do not stop the replay
         self.counts = {'records': 0, 'refs_checked': 0, 'loads': 0, 'exports': 0, 'imports': 0, 'packs': 0,
-                       'loads_after_reset': 0, 'loads_reusing_objects': 0, 'handle_checks': 0, 'probes': 0}
+                       'loads_after_reset': 0, 'loads_reusing_objects': 0, 'handle_checks': 0, 'probes': 0,
+                       'touches': 0, 'placeholders_py2': 0, 'unloadable': 0}
+        self.sps = []         # the real savepoints of connection A's transaction
         self.B = self.Bclosed = self.tmb = None     # the loading connection (see load_elsewhere)
         self.handles = {}     # (db, oid) -> object handed out by B in its current cache generation
         self.exported_for = None
@@ -486,8 +580,19 @@ class GraphReplayer:
                     self.A.add(self.nodes[args[0]])
                 elif action in ('Commit', 'CommitPrinted'):
                     self.tm.commit()
+                    self.sps = []
                     if self.opts.get('minimize'):
                         self.A.cacheMinimize()      # concretisation: later edits meet ghosts
+                elif action == 'Savepoint':
+                    self.sps.append(self.tm.savepoint())
+                elif action == 'Rollback':
+                    k = args[0]
+                    self.sps[k - 1].rollback()
+                    del self.sps[k:]
+                elif action == 'TouchElsewhere':
+                    with hidden(GONE_MOD):
+                        self.touch_elsewhere(args[0])
+                    self.tm.abort()                 # connection A (idle) crosses a transaction boundary
                 elif action == 'Pack':
                     self.db1.pack(t=time.time() + 1)
                     self.counts['packs'] += 1
@@ -514,6 +619,7 @@ class GraphReplayer:
                 self.check_storage(state)
                 if action == 'LoadElsewhere':
                     self.load_elsewhere(state)
+                self.monitor(action, state)
             except _Blocked:
                 raise Mismatch('outcome', 'blocked', 'observation after %s did not return' % action)
             except (Mismatch, RuntimeError):
@@ -527,6 +633,35 @@ class GraphReplayer:
         finally:
             signal.setitimer(signal.ITIMER_REAL, 0)
             signal.signal(signal.SIGALRM, old)
+
+    def touch_elsewhere(self, n):
+        """the loading connection B (classes of GONE_MOD missing) changes node n and commits"""
+        if self.B is None:
+            raise RuntimeError('TouchElsewhere with connection B not open')
+        self.tmb.abort()
+        ob = self.B.get(self.nodes[n]._p_oid)
+        self.counts['touches'] += 1
+        ob.touch = self.counts['touches']
+        self.tmb.commit()
+        ob._p_invalidate()      # B drops its copy: the next traversal reads what B wrote
+
+    def monitor(self, action, state):
+        """The property monitor: where TLC says that this step of the code-as-it-is model breaks the property
+        (fields of `res`, flags of obs.view), and the real code has just been seen to take that very step, the
+        violation is established on the code.  Recorded; the replay goes on."""
+        res = state.get('res') or {}
+        if action == 'Commit' and res.get('orphans'):
+            self.soft.setdefault(('Commit', 'stored-iff', 'orphan-after-savepoint'),
+                                 'the commit stored %s: new, not reachable from any stored object and never add()ed '
+                                 '(written by a savepoint and unlinked again before the commit)' % sorted(res['orphans']))
+        if action == 'Commit' and res.get('dangling'):
+            self.soft.setdefault(('Commit', 'dangling', 'reference-to-unstored-object'),
+                                 'the commit wrote ordinary references to %s, which have no record' % sorted(res['dangling']))
+        if action == 'TouchElsewhere' and res.get('lost'):
+            self.soft.setdefault(('TouchElsewhere', 'record', 'missing-class-reduce-args-rewritten'),
+                                 'a connection lacking the class re-stored node %s: the embedded GoneValue(ref) was written '
+                                 'back as GoneValue.__new__(GoneValue, ref); where the class exists the value now loads '
+                                 'empty (reference lost)' % sorted(res['lost']))
 
     # ---- projections ----
     def check_connection_a(self, state, after_pack=False):
@@ -605,7 +740,7 @@ class GraphReplayer:
                 continue
             present += 1
             self.counts['records'] += 1
-            with hidden(CLS_MOD, GONE_MOD) as watch:
+            with hidden(CLS_MOD, GONE_MOD, PY2_MOD) as watch:
                 rec = read_record(data)
                 try:
                     rf = serialize.referencesf(data)
@@ -664,27 +799,41 @@ class GraphReplayer:
                 total, present))
 
     # ---- LoadElsewhere ----
-    def _kind_check(self, n, ob):
+    def _broken(self, n):
+        """does the specification (obs.view) say node n is read as a placeholder where GONE_MOD is missing"""
+        return n < 100 and bool(self.view[n]['broken'])
+
+    def _kind_check(self, n, ob, hidden_gone=True):
         from ZODB import broken
         k = self.kinds[n] if n < 100 else fkind(n)
         mod, cls = KIND_CLASS[k]
+        want_broken = self._broken(n) and (hidden_gone or not is_gone(k))
+        if want_broken and not is_gone(k):
+            mod = PY2_RENAMED                  # Py2Remap: the class is looked for under the renamed module
         t = type(ob)
         if (t.__module__, t.__name__) != (mod, cls):
             return 'is a %s.%s' % (t.__module__, t.__name__)
-        if is_gone(k) != isinstance(ob, broken.PersistentBroken):
+        if want_broken != isinstance(ob, broken.PersistentBroken):
             return 'placeholder=%s' % isinstance(ob, broken.PersistentBroken)
+        if want_broken and not is_gone(k):
+            self.counts['placeholders_py2'] += 1
+            self.soft.setdefault(('LoadElsewhere', 'class', 'py2-module-name-remapped'),
+                                 'node %d, an instance of the importable class %s.%s, is read as a placeholder of %s.%s '
+                                 '(the module name is also a Python 2 stdlib name and is renamed on every read)' % (
+                                     n, KIND_CLASS[k][0], cls, mod, cls))
         return None
 
     def _state_of(self, n, ob):
-        k = self.kinds[n] if n < 100 else fkind(n)
-        if is_gone(k):
+        from ZODB import broken
+        k = self.kinds.get(n, 'plain') if n < 100 else fkind(n)
+        if isinstance(ob, broken.PersistentBroken):
             ob._p_activate()
             st = ob.__Broken_state__
             if has_newargs(k):
                 args = getattr(ob, '__Broken_newargs__', None)
                 if args is None:
                     # recorded, and the behaviour goes on: everything else about the node is still judged
-                    self.soft.setdefault(('placeholder', 'newargs-lost'),
+                    self.soft.setdefault(('LoadElsewhere', 'placeholder', 'newargs-lost'),
                                          'placeholder of node %d (%s) has no __Broken_newargs__ any more (the connection '
                                          'deactivated it since it was created)' % (n, k))
                 elif args != (node_name(n),):
@@ -748,7 +897,7 @@ class GraphReplayer:
         from ZODB.POSException import POSKeyError
         self.counts['loads'] += 1
         res = state['res']
-        view = state['obs']['view']
+        view = self.view = state['obs']['view']
         exports = {}
         with hidden(GONE_MOD):
             self.open_b(res)
@@ -809,6 +958,19 @@ class GraphReplayer:
                     ob._p_activate()       # the connection may still hold a ghost of a packed-away object
                 except POSKeyError:
                     ob = None
+                except (AttributeError, TypeError) as ex:
+                    if want['p'] and not want['loadable']:
+                        # BrokenContainerUnloadable: the specification of the code as it is says so
+                        self.counts['unloadable'] += 1
+                        identify(ob, 'by get(oid)')
+                        self.soft.setdefault(('LoadElsewhere', 'load', 'missing-container-class-unloadable'),
+                                             'node %d (%s) cannot be loaded where the list / dict subclass of an embedded '
+                                             'container is missing: %s: %s' % (n, self.kinds[n], type(ex).__name__, str(ex)[:80]))
+                        continue
+                    raise
+                if ob is not None and not want['loadable']:
+                    raise Mismatch('load', 'loadable', 'node %d loads although the specification of the code as it is '
+                                   '(BrokenContainerUnloadable) says it cannot' % n)
                 if (ob is not None) != want['p']:
                     raise Mismatch('load', 'present' if ob is not None else 'absent',
                                    'node %d in another connection: spec %s, implementation %s' % (
@@ -828,6 +990,8 @@ class GraphReplayer:
                     else:
                         kind, target = 'strong', ref
                     d = identify(target, 'from node %d through a %s reference in %s' % (n, kind, holder))
+                    if d < 100 and not view[d]['loadable']:
+                        return (d, kind, holder, True)
                     via.setdefault(d, target)
                     st = self._state_of(d, target)
                     if st.get('name') != node_name(d):
@@ -848,9 +1012,8 @@ class GraphReplayer:
             # other (get(oid)); the abort must take it back through both
             probed = []
             for d, target in sorted(via.items()):
-                k = self.kinds[d] if d < 100 else fkind(d)
-                if is_gone(k):
-                    continue                   # placeholders refuse modification
+                if self._broken(d) or (d < 100 and not view[d]['loadable']):
+                    continue                   # placeholders refuse modification; unloadable objects cannot be touched
                 conn = target._p_jar
                 target.probe = self.counts['loads']
                 if conn.get(target._p_oid).__dict__.get('probe') != self.counts['loads']:
@@ -889,7 +1052,7 @@ class GraphReplayer:
         import ZODB
         from ZODB.MappingStorage import MappingStorage
         self.counts['imports'] += 1
-        view = state['obs']['view']
+        view = self.view = state['obs']['view']
         st = MappingStorage()
         st.new_oid = oid_source(self.pattern)
         db = ZODB.DB(st)
@@ -917,22 +1080,20 @@ class GraphReplayer:
                 if m in pair.values():
                     raise Mismatch('import', 'not-isomorphic', 'node %d has two copies' % m)
                 pair[ob._p_oid] = m
-                cls = KIND_CLASS[self.kinds[m]]
-                if (type(ob).__module__, type(ob).__name__) != cls:
-                    raise Mismatch('import', 'class', 'copy of node %d is a %s' % (m, type(ob).__name__))
-                ob._p_activate()
+                bad = self._kind_check(m, ob, hidden_gone=False)
+                if bad:
+                    raise Mismatch('import', 'class', 'copy of node %d %s' % (m, bad))
                 targets = {}
 
                 def resolve(holder, ref):
                     if isinstance(ref, WeakRef) or ref._p_jar is not c:
                         return ('foreign-or-weak', 'x', holder)
-                    ref._p_activate()
-                    d = int(ref.name[1:]) if isinstance(getattr(ref, 'name', None), str) and ref.name[1:].isdigit() else -1
+                    nm = self._state_of(-1, ref).get('name')
+                    d = int(nm[1:]) if isinstance(nm, str) and nm[1:].isdigit() else -1
                     targets[d] = ref
                     return (d, 'strong', holder)
                 name, tag, edges, problems = decode_state(
-                    {a: v for a, v in ob.__dict__.items() if not a.startswith('_')},
-                    lambda v: isinstance(v, (persistent.Persistent, WeakRef)), resolve)
+                    self._state_of(-1, ob), lambda v: isinstance(v, (persistent.Persistent, WeakRef)), resolve)
                 want = edge_tuples(view[m]['e'])
                 if problems or edges != want or name != node_name(m):
                     raise Mismatch('import', _edge_item(edges ^ want) if edges ^ want else 'state',
@@ -1077,7 +1238,7 @@ def replay_behaviour(job):
                     e['dst'] == n and e['kind'] == 'strong' for m in st['stored'] for e in st['stored'][m]['e']))
             prev = st
     finally:
-        res['soft'] = [{'what': k[0], 'item': k[1], 'detail': v} for k, v in sorted(rp.soft.items())]
+        res['soft'] = [{'action': k[0], 'what': k[1], 'item': k[2], 'detail': v} for k, v in sorted(rp.soft.items())]
         res['formats'] = rp.formats
         res['counts'] = rp.counts
         rp.close()
